@@ -30,7 +30,7 @@ def lib_args(dialect):
     return []
 
 
-def run_loop(binfo, scratch, script, dialect, plan_extra=(), chunks=None, eof=None, cpu=15, files=None):
+def run_loop(binfo, scratch, script, dialect, plan_extra=(), chunks=None, eof=None, cpu=40, files=None):
     w = scratch.new()
     os.makedirs(os.path.join(w, "sb"))
     for fn, text in (files or {}).items():
@@ -50,7 +50,7 @@ def run_loop(binfo, scratch, script, dialect, plan_extra=(), chunks=None, eof=No
     return r
 
 
-def run_batch(binfo, scratch, text, dialect, cpu=25, files=None):
+def run_batch(binfo, scratch, text, dialect, cpu=40, files=None):
     w = scratch.new()
     sb = os.path.join(w, "sb")
     os.makedirs(sb)
